@@ -1,6 +1,6 @@
 From Coq Require Import List NArith Bool.
 From V.gen Require Consts.
-From V.C03 Require Import Model Msg Proofs UviProofs LsProofs WebRtc WebRtcProofs Fallback.
+From V.C03 Require Import Model Msg Proofs UviProofs LsProofs WebRtc WebRtcProofs WGroup WGroupProofs Fallback.
 From V.C03 Require Import MsgRef MsgProofs MsgInv Chan Dir SimD SimL SimSys BytesThm LazyThm.
 From V.C03 Require Import Work Work2 Live Timed TimedProofs Survivor NegOps LazyBytes Compose Sub SubProofs.
 From V.C03 Require Import Peer PeerTie RefDiff.
@@ -160,6 +160,33 @@ Check (C03_webrtc_session_agreement :
                   | None => None
                   end /\
   ws_proposed r = take_until sup (p :: fs)).
+Check (C03_webrtc_grouping_irrelevant :
+  forall cur (first : bool) v gs,
+  legal_verdict v -> (first = true -> hd 1 gs <> 0) ->
+  let msgs := group gs (reply_frames first v) in
+  let whole := webrtc_dialer_register (S (length (concat (reply_frames first v)))) cur (negb first)
+                                      (concat (reply_frames first v)) in
+  wd_feed cur (negb first) msgs =
+  (fst whole, repeat WDNotReady (length msgs - 1) ++ [snd whole])).
+Check (C03_webrtc_whole_reply_verdict :
+  forall cur (first : bool) v, legal_verdict v ->
+  webrtc_dialer_register (S (length (concat (reply_frames first v)))) cur (negb first)
+                         (concat (reply_frames first v)) = (true, verdict_of cur v)).
+Check (C03_webrtc_grouped_session_spec :
+  forall p fs ls gss,
+  forallb Glue.wfw_b (p :: fs) = true -> Glue.clean4 gss = true ->
+  Glue.propose_msg p true = Some (hdr_part ++ msg_part (MProto p)) /\
+  [1; 0] ++ Glue.enc_bytes (hdr_part ++ msg_part (MProto p)) ++
+    Glue.run4 (tag_from 0 ls) fs p (hdr_part ++ msg_part (MProto p)) false false gss =
+  1 :: Glue.spec4_trace p fs ls gss).
+Check (C03_webrtc_session_oracle_accepts_model :
+  forall p fs ls gss tb,
+  forallb Glue.wfw_b (p :: fs) = true -> Glue.clean4 gss = true ->
+  (match Glue.propose_msg p true with
+   | Some m => [1; 0] ++ Glue.enc_bytes m ++ Glue.run4 (tag_from 0 ls) fs p m false false gss
+   | None => [1; 1]
+   end) = 1 :: tb ->
+  Glue.ok4 p fs ls gss tb = true /\ tb = Glue.spec4_trace p fs ls gss).
 Check (C03_fallback_reported_to_main :
   forall cfg m fs f, wf_cfg cfg -> In (m, fs) cfg -> In f fs -> report cfg f = Some (m, Some f)).
 Check (C03_main_reported_as_main :
